@@ -1,0 +1,82 @@
+//! H4: read-only snapshots of store internals for the verification harness.
+//! Compiled only with `--cfg feoxdb_verif`.
+use std::sync::atomic::Ordering;
+use std::sync::Arc;
+
+use super::FeoxStore;
+use crate::core::record::Record;
+
+/// One live record as the indexes see it.
+#[derive(Debug, Clone)]
+pub struct VerifRecord {
+    pub key: Vec<u8>,
+    pub timestamp: u64,
+    pub ttl_expiry: u64,
+    pub sector: u64,
+    pub value_len: usize,
+    pub resident: bool,
+    pub refcount: u32,
+}
+
+impl FeoxStore {
+    /// Every record reachable from the ordered index, in key order.
+    pub fn verif_snapshot(&self) -> Vec<VerifRecord> {
+        let guard = &crossbeam_epoch::pin();
+        let mut out = Vec::new();
+        for entry in self.tree.iter() {
+            let record: Arc<Record> = Arc::clone(entry.value().load(guard));
+            out.push(VerifRecord {
+                key: record.key.clone(),
+                timestamp: record.timestamp,
+                ttl_expiry: record.ttl_expiry.load(Ordering::Acquire),
+                sector: record.sector.load(Ordering::Acquire),
+                value_len: record.value_len,
+                resident: record.get_value().is_some(),
+                refcount: record.refcount.load(Ordering::Acquire),
+            });
+        }
+        out
+    }
+
+    /// Keys present in the hash index (unordered).
+    pub fn verif_hash_keys(&self) -> Vec<Vec<u8>> {
+        let mut keys = Vec::new();
+        self.hash_table.scan(|key, _| keys.push(key.clone()));
+        keys
+    }
+
+    /// (total_free bytes, chunks, largest bytes, fragmentation)
+    pub fn verif_free_stats(&self) -> (u64, usize, u64, u32) {
+        let free = self.free_space.read();
+        (
+            free.get_total_free(),
+            free.get_free_chunks_count(),
+            free.get_largest_free_chunk(),
+            free.get_fragmentation(),
+        )
+    }
+
+    pub fn verif_format_version(&self) -> u32 {
+        self.format_version
+    }
+
+    pub fn verif_disk_usage(&self) -> u64 {
+        self.stats.disk_usage.load(Ordering::Relaxed)
+    }
+
+    pub fn verif_ambiguous_markers(&self) -> u64 {
+        self.ambiguous_legacy_markers
+    }
+
+    pub fn verif_record_overhead() -> usize {
+        std::mem::size_of::<Record>()
+    }
+
+    pub fn verif_clock_shard(&self, key: &[u8]) -> usize {
+        self.version_clock.shard_index(key)
+    }
+
+    pub fn verif_clock_value(&self, shard: usize) -> u64 {
+        self.version_clock.shards[shard].load(Ordering::Relaxed)
+    }
+}
